@@ -37,6 +37,9 @@ def units(tier):
             us.append(("rm[%s,%s]" % (sh, lazy), "unit_rm_encode", dict(shape=sh, lazy=lazy)))
             if sh not in ("Rn", "%e"):
                 us.append(("frm[%s,%s]" % (sh, lazy), "unit_rm_encode", dict(shape=sh, lazy=lazy, fp=True)))
+    for sh in insn.PCT_SHAPES:        # the register written %e inside every addressing form, also behind an index expression
+        for rl in (False, True):
+            us.append(("rm-pct[%s,%s]" % (sh, rl), "unit_rm_pct", dict(shape=sh, reg_lazy=rl)))
     for sh in REG_SHAPES:
         us.append(("reg[%s]" % sh, "unit_reg_encode", dict(shape=sh)))
     for which in ("rm", "ac"):
@@ -181,6 +184,9 @@ def replay(o, tree):
     from spec import pdp11_isa as isa
     if o.get("unit", "").startswith("try_accumulator_from_symbol["):
         return replay_accumulator_name(o, tree)
+    if cfg.get("kind") == "pct":
+        from contracts import c10
+        return c10.replay(o, tree)
     if cfg.get("kind") == "insn" and (o.get("label", "").startswith("rel-address-operand") or o.get("label", "").startswith("state-otherwise-unchanged")):
         r = replay_rel(cfg["mnemonic"], tree)
         if r is not None and r["reproduced"]:
